@@ -1,6 +1,5 @@
 /- Completeness of beap search, part 7: the invariants hold after the prologue and along `next`; prefix completeness. -/
-import PS.Proofs.Enum.BeapComplResume
-import PS.Proofs.Enum.BeapFresh
+import PS.Proofs.Enum.BeapComplHead
 namespace PS.Beap
 open PS PS.G PS.Heapq
 set_option linter.unusedSectionVars false
@@ -99,28 +98,36 @@ structure GK (E : Env S) (g : Gen S) (ys : List Prog) : Prop where
   w : WInv E g.st
   e4 : E4g g.st
   fro : ∀ S', S' ≠ E.G.start → FR E g.st S'
-  fr : ∀ fr, g.frame = some fr → FrK E g.st E.G.start fr ∧ fr.ci = g.n
+  fr : ∀ fr, g.frame = some fr → FrK E g.st E.G.start fr ∧ fr.ci = g.n ∧ (g.failed = true → fr.hasGen = false) ∧
+    (fr.noSucc = false ∨ ∃ e q, g.st.queueOf E.G.start = e :: q ∧ e.cost = fr.cost)
   idle : g.frame = none → FR E g.st E.G.start ∧ (∀ ci, Entered g.st E.G.start ci → ci < g.n) ∧
-    (g.n + 1 = (g.st.clOf E.G.start).length ∨ (g.st.clOf E.G.start).length ≤ g.n)
+    ((g.n + 1 = (g.st.clOf E.G.start).length ∧
+        ∀ c, (g.st.clOf E.G.start)[g.n]? = some c → ∃ e q, g.st.queueOf E.G.start = e :: q ∧ e.cost = c) ∨
+     ((g.st.clOf E.G.start).length ≤ g.n ∧ g.st.queueOf E.G.start = []))
+  fin : g.finished = true → g.frame = none ∧ g.st.queueOf E.G.start = []
+  ne : g.st.clOf E.G.start ≠ []
   yb : ∀ ci q, q ∈ g.st.bankAt E.G.start ci → q ∈ ys
   yc : ∀ p ∈ ys, ∃ c, c ∈ g.st.clOf E.G.start ∧ costOf E p E.G.start = some c.fin
 
 theorem nextLoop_k (E : Env S) (hpos : PosW E) (fuel : Nat) : ∀ (k : Nat) (s : St S) (n : Nat) (failed : Bool) (fro : Option Frame)
     (r : Gen S × Option Prog) (ys : List Prog), WInv E s → E4g s → (∀ S', S' ≠ E.G.start → FR E s S') →
-    (∀ fr, fro = some fr → FrK E s E.G.start fr ∧ fr.ci = n) →
+    (∀ fr, fro = some fr → FrK E s E.G.start fr ∧ fr.ci = n ∧ (failed = true → fr.hasGen = false) ∧
+      (fr.noSucc = false ∨ ∃ e q, s.queueOf E.G.start = e :: q ∧ e.cost = fr.cost)) →
     (fro = none → FR E s E.G.start ∧ (∀ ci, Entered s E.G.start ci → ci < n) ∧
-      (n + 1 = (s.clOf E.G.start).length ∨ (s.clOf E.G.start).length ≤ n)) →
+      ((n + 1 = (s.clOf E.G.start).length ∧ ∀ c, (s.clOf E.G.start)[n]? = some c → ∃ e q, s.queueOf E.G.start = e :: q ∧ e.cost = c) ∨
+       ((s.clOf E.G.start).length ≤ n ∧ s.queueOf E.G.start = []))) →
+    s.clOf E.G.start ≠ [] →
     (∀ ci q, q ∈ s.bankAt E.G.start ci → q ∈ ys) →
     (∀ p ∈ ys, ∃ c, c ∈ s.clOf E.G.start ∧ costOf E p E.G.start = some c.fin) →
-    nextLoop E fuel k s n failed fro = some r → GK E r.1 (ys ++ r.2.toList) := by
+    nextLoop E fuel k s n failed fro = some r → GK E r.1 (ys ++ r.2.toList) ∧ (r.2 = none → r.1.finished = true) := by
   intro k
   induction k with
-  | zero => intro s n failed fro r ys _ _ _ _ _ _ _ h; simp [nextLoop] at h
+  | zero => intro s n failed fro r ys _ _ _ _ _ _ _ _ h; simp [nextLoop] at h
   | succ k ih =>
-    intro s n failed fro r ys hw h4 hfro hf hidle hyb hyc h
+    intro s n failed fro r ys hw h4 hfro hf hidle hne0 hyb hyc h
     cases fro with
     | some fr =>
-      obtain ⟨hk, hci⟩ := hf fr rfl
+      obtain ⟨hk, hci, hfail, hproc⟩ := hf fr rfl
       simp only [nextLoop] at h
       have hx : fr.cost.fin < fr.cost.fin + 1 := by grind
       have hfo : FRo E (fr.cost.fin + 1) s E.G.start := fun S' hS _ => hfro S' hS
@@ -128,11 +135,18 @@ theorem nextLoop_k (E : Env S) (hpos : PosW E) (fuel : Nat) : ∀ (k : Nat) (s :
       · cases h
       · next s1 p fr1 hr =>
         cases h
-        obtain ⟨g1, g2, g3, g4, g5, _, g7⟩ := (compl_all E hpos fuel).2.2.2.1 _ _ _ _ _ hw h4 hfo hk hx hr
+        obtain ⟨g1, g2, g3, g4, g5, _, g7, _, _⟩ := (compl_all E hpos fuel).2.2.2.1 _ _ _ _ _ hw h4 hfo hk hx hr
         obtain ⟨_, c2, c3⟩ := (cost_all E fuel).2.2.2.1 _ _ _ _ hw.c hk.fc hr
         obtain ⟨c4, _, c6, _⟩ := c3 p fr1 rfl
-        refine ⟨rfl, g1, g2, fun S' hS => ?_, fun fr' he => (by cases he; exact ⟨g5 p fr1 rfl, by rw [c6, hci]⟩), fun he => (by cases he),
-          fun ci q hq => ?_, fun p' hp' => ?_⟩
+        have hne1 : s1.clOf E.G.start ≠ [] := by
+          intro h0
+          have := (c2 E.G.start).length_le
+          rw [h0] at this
+          exact hne0 (List.length_eq_zero_iff.mp (by simpa using this))
+        refine ⟨⟨rfl, g1, g2, fun S' hS => ?_, fun fr' he => (by
+            cases he
+            exact ⟨(g5 p fr1 rfl).1, by rw [c6, hci], fun hh => (by cases hh), Or.inl (g5 p fr1 rfl).2⟩), fun he => (by cases he),
+          fun hh => (by cases hh), hne1, fun ci q hq => ?_, fun p' hp' => ?_⟩, fun hh => (by cases hh)⟩
         · by_cases hl : lastGe s S' (fr.cost.fin + 1)
           · exact (hfro S' hS).of_same (g3 S' hl) c2
           · exact g4 S' hS hl
@@ -146,7 +160,7 @@ theorem nextLoop_k (E : Env S) (hpos : PosW E) (fuel : Nat) : ∀ (k : Nat) (s :
             exact ⟨c, (c2 E.G.start).subset m1, m2⟩
           · exact ⟨fr.cost, (c2 E.G.start).subset (List.mem_of_getElem? hk.fo.2), c4⟩
       · next s1 hr =>
-        obtain ⟨g1, g2, g3, g4, _, g6, g7⟩ := (compl_all E hpos fuel).2.2.2.1 _ _ _ _ _ hw h4 hfo hk hx hr
+        obtain ⟨g1, g2, g3, g4, _, g6, g7, g8, g9⟩ := (compl_all E hpos fuel).2.2.2.1 _ _ _ _ _ hw h4 hfo hk hx hr
         obtain ⟨_, c2, _⟩ := (cost_all E fuel).2.2.2.1 _ _ _ _ hw.c hk.fc hr
         obtain ⟨_, _, _, o4⟩ := (order_all E hpos fuel).2.2.2.1 _ _ _ _ _ hw.c hk.fc hw.o hk.fo hx hr
         obtain ⟨q1, q2, q3⟩ := g6 rfl
@@ -164,17 +178,36 @@ theorem nextLoop_k (E : Env S) (hpos : PosW E) (fuel : Nat) : ∀ (k : Nat) (s :
           intro p' hp'
           obtain ⟨c, m1, m2⟩ := hyc p' hp'
           exact ⟨c, (c2 E.G.start).subset m1, m2⟩
-        have hlen : n + 1 + 1 = (s1.clOf E.G.start).length ∨ (s1.clOf E.G.start).length ≤ n + 1 := by
+        have hne1 : s1.clOf E.G.start ≠ [] := by
+          intro h0
+          have := (c2 E.G.start).length_le
+          rw [h0] at this
+          exact hne0 (List.length_eq_zero_iff.mp (by simpa using this))
+        have hlen1 : (s1.clOf E.G.start).length ≤ n + 2 := by
           have h1 : (s1.clOf E.G.start).length ≤ (s.clOf E.G.start).length + 1 := o4 rfl
           have h2 := hk.fo.1
           rw [hci] at h2
-          have h3 : (s.clOf E.G.start).length ≤ (s1.clOf E.G.start).length := (c2 E.G.start).length_le
           omega
+        have hidle1 : (n + 1 + 1 = (s1.clOf E.G.start).length ∧
+              ∀ c, (s1.clOf E.G.start)[n + 1]? = some c → ∃ e q, s1.queueOf E.G.start = e :: q ∧ e.cost = c) ∨
+            ((s1.clOf E.G.start).length ≤ n + 1 ∧ s1.queueOf E.G.start = []) := by
+          have g8' : (s1.queueOf E.G.start = [] ∧ (s1.clOf E.G.start).length = fr.ci + 1) ∨
+              (∃ e q, s1.queueOf E.G.start = e :: q ∧ (s1.clOf E.G.start)[fr.ci + 1]? = some e.cost) := g8 rfl
+          rcases g8' with ⟨a1, a2⟩ | ⟨e, q, a1, a2⟩
+          · right; rw [hci] at a2; exact ⟨by omega, a1⟩
+          · left
+            rw [hci] at a2
+            have := (List.getElem?_eq_some_iff.mp a2).1
+            refine ⟨by omega, fun c hc => ⟨e, q, a1, ?_⟩⟩
+            rw [a2] at hc; exact Option.some.inj hc
         have hent1 : ∀ ci, Entered s1 E.G.start ci → ci < n + 1 := fun ci hen => by have := q3 ci hen; omega
         split at h
-        · cases h
-          exact ⟨rfl, g1, g2, hfro1, fun fr' he => (by cases he), fun _ => ⟨q1, hent1, hlen⟩, by simpa using hyb1, by simpa using hyc1⟩
-        · exact ih _ _ _ _ _ ys g1 g2 hfro1 (fun fr' he => by cases he) (fun _ => ⟨q1, hent1, hlen⟩) hyb1 hyc1 h
+        · next hcond =>
+          exfalso
+          simp only [Bool.and_eq_true, Bool.not_eq_true'] at hcond
+          have := g9 hproc rfl (hfail hcond.1)
+          rw [hcond.2] at this; cases this
+        · exact ih _ _ _ _ _ ys g1 g2 hfro1 (fun fr' he => by cases he) (fun _ => ⟨q1, hent1, hidle1⟩) hne1 hyb1 hyc1 h
     | none =>
       simp only [nextLoop] at h
       obtain ⟨i1, i2, i3⟩ := hidle rfl
@@ -187,17 +220,22 @@ theorem nextLoop_k (E : Env S) (hpos : PosW E) (fuel : Nat) : ∀ (k : Nat) (s :
       split at h
       · next hget =>
         cases h
-        refine ⟨rfl, hw0, h40, fun S' hS => hfr0 S' (hfro S' hS), fun fr' he => (by cases he),
-          fun _ => ⟨hfr0 _ i1, fun ci hen => (by have := i2 ci hen; show ci < n + 1; omega), Or.inr ?_⟩,
+        have hlen : (s.clOf E.G.start).length ≤ n := List.getElem?_eq_none_iff.mp hget
+        have hq0 : s.queueOf E.G.start = [] := by
+          rcases i3 with ⟨a1, _⟩ | ⟨_, a2⟩
+          · omega
+          · exact a2
+        refine ⟨⟨rfl, hw0, h40, fun S' hS => hfr0 S' (hfro S' hS), fun fr' he => (by cases he),
+          fun _ => ⟨hfr0 _ i1, fun ci hen => (by have := i2 ci hen; show ci < n + 1; omega), Or.inr ⟨?_, hq0⟩⟩, fun _ => ⟨rfl, hq0⟩, hne0,
           fun ci q hq => (by simp only [Option.toList_none, List.append_nil]; exact hyb ci q hq),
-          fun p' hp' => (by simp only [Option.toList_none, List.append_nil] at hp'; exact hyc p' hp')⟩
-        have : (s.clOf E.G.start).length ≤ n := List.getElem?_eq_none_iff.mp hget
+          fun p' hp' => (by simp only [Option.toList_none, List.append_nil] at hp'; exact hyc p' hp')⟩, fun _ => rfl⟩
         show (s.clOf E.G.start).length ≤ n + 1
         omega
       · next c hget =>
         have hlt : n < (s.clOf E.G.start).length := (List.getElem?_eq_some_iff.mp hget).1
-        have hl : n + 1 = (s.clOf E.G.start).length := by
-          rcases i3 with h1 | h1
+        obtain ⟨hl, hhead⟩ : n + 1 = (s.clOf E.G.start).length ∧
+            ∀ c, (s.clOf E.G.start)[n]? = some c → ∃ e q, s.queueOf E.G.start = e :: q ∧ e.cost = c := by
+          rcases i3 with h1 | ⟨h1, _⟩
           · exact h1
           · omega
         have hnotent : ¬ Entered s E.G.start n := fun hen => by have := i2 n hen; omega
@@ -221,44 +259,53 @@ theorem nextLoop_k (E : Env S) (hpos : PosW E) (fuel : Nat) : ∀ (k : Nat) (s :
           · rcases i1.1 f kids y c rl hcl hy hlast hle hr with ⟨g1, g2⟩ | ⟨el, g1, g2, g3⟩
             · left; rw [hlen] at g2; exact ⟨g1, g2⟩
             · right; left; exact ⟨el, g1, g2, BelowArgs.ext (s := s) (s' := { s with failedByEmpties := false }) (Ext.of_eq fun _ => rfl) _ _ _ g3⟩
-        exact ih _ _ _ _ _ ys hw0 h40 (fun S' hS => hfr0 S' (hfro S' hS)) (fun fr' he => by cases he; exact ⟨hk, rfl⟩)
-          (fun he => by cases he) hyb hyc h
+        exact ih _ _ _ _ _ ys hw0 h40 (fun S' hS => hfr0 S' (hfro S' hS))
+          (fun fr' he => by cases he; exact ⟨hk, rfl, fun _ => rfl, Or.inr (hhead c hget)⟩)
+          (fun he => by cases he) hne0 hyb hyc h
 
 /-- the generator along `take` from a new one: not started yet, or started with the completeness invariant -/
 def TK (E : Env S) (g : Gen S) (ys : List Prog) : Prop :=
-  (g.started = false ∧ g.st = St.empty E.G ∧ ys = []) ∨ GK E g ys
+  (g.started = false ∧ g.finished = false ∧ g.st = St.empty E.G ∧ ys = []) ∨ GK E g ys
 
 theorem next_k (E : Env S) (hnd : RowsNodup E.G) (hst : StableAfter E) (hprod : Productive E) (hpos : PosW E)
     (fuel : Nat) (g : Gen S) (r : Gen S × Option Prog) (ys : List Prog) (htk : TK E g ys) (h : next E fuel g = some r) :
-    TK E r.1 (ys ++ r.2.toList) := by
+    TK E r.1 (ys ++ r.2.toList) ∧ (r.2 = none → r.1.finished = true) := by
   unfold next at h
   split at h
-  · cases h; simpa using htk
+  · next hfin => cases h; exact ⟨by simpa using htk, fun _ => hfin⟩
   · split at h
     · next hs =>
       rcases htk with ⟨h1, _, _⟩ | hg
       · rw [h1] at hs; cases hs
-      · exact Or.inr (nextLoop_k E hpos fuel _ _ _ _ _ _ ys hg.w hg.e4 hg.fro hg.fr hg.idle hg.yb hg.yc h)
+      · obtain ⟨a, b⟩ := nextLoop_k E hpos fuel _ _ _ _ _ _ ys hg.w hg.e4 hg.fro hg.fr hg.idle hg.ne hg.yb hg.yc h
+        exact ⟨Or.inr a, b⟩
     · next hns =>
-      rcases htk with ⟨_, h2, h3⟩ | hg
+      rcases htk with ⟨_, _, h2, h3⟩ | hg
       · split at h
         · cases h
         · next s hp =>
           rw [h2] at hp
           obtain ⟨k1, k2, k3, k4, k5⟩ := prologue_k E hnd hst hprod hpos fuel s hp
           have hlen := (prologue_pi E hnd fuel s hp).len E.G.start
+          have hne := prologue_start_ne E fuel s hp
+          have hhe := prologue_he E fuel s hp
+          have hl1 : 0 + 1 = (s.clOf E.G.start).length := by
+            cases hcl : s.clOf E.G.start with
+            | nil => exact absurd hcl hne
+            | cons c0 r0 => rw [hcl] at hlen; simp at hlen ⊢; omega
           subst h3
-          refine Or.inr (nextLoop_k E hpos fuel _ _ _ _ _ _ [] k1 k2 (fun S' _ => k3 S') (fun fr he => by cases he)
-            (fun _ => ⟨k3 _, fun ci hen => absurd hen (k4 _ ci), by omega⟩) (fun ci q hq => by rw [k5] at hq; cases hq)
-            (fun p hp' => by cases hp') h)
+          obtain ⟨a, b⟩ := nextLoop_k E hpos fuel _ _ _ _ _ _ [] k1 k2 (fun S' _ => k3 S') (fun fr he => by cases he)
+            (fun _ => ⟨k3 _, fun ci hen => absurd hen (k4 _ ci), Or.inl ⟨hl1, hhe⟩⟩) hne (fun ci q hq => by rw [k5] at hq; cases hq)
+            (fun p hp' => by cases hp') h
+          exact ⟨Or.inr a, b⟩
       · exact absurd hg.started hns
 
 theorem take_k (E : Env S) (hnd : RowsNodup E.G) (hst : StableAfter E) (hprod : Productive E) (hpos : PosW E) (fuel : Nat) :
     ∀ (k : Nat) (g : Gen S) (acc : List Prog) (r : Gen S × List Prog × Bool), TK E g acc → take E fuel k g acc = some r →
-      TK E r.1 r.2.1 := by
+      TK E r.1 r.2.1 ∧ (r.2.2 = true → r.1.finished = true) := by
   intro k
   induction k with
-  | zero => intro g acc r htk h; simp only [take] at h; cases h; exact htk
+  | zero => intro g acc r htk h; simp only [take] at h; cases h; exact ⟨htk, fun hh => by cases hh⟩
   | succ k ih =>
     intro g acc r htk h
     simp only [take] at h
@@ -266,11 +313,11 @@ theorem take_k (E : Env S) (hnd : RowsNodup E.G) (hst : StableAfter E) (hprod : 
     · cases h
     · next g' hn =>
       cases h
-      have := next_k E hnd hst hprod hpos fuel g _ acc htk hn
-      simpa using this
+      obtain ⟨a, b⟩ := next_k E hnd hst hprod hpos fuel g _ acc htk hn
+      exact ⟨by simpa using a, fun _ => b rfl⟩
     · next g' p hn =>
-      have := next_k E hnd hst hprod hpos fuel g _ acc htk hn
-      exact ih g' _ r (by simpa using this) h
+      obtain ⟨a, _⟩ := next_k E hnd hst hprod hpos fuel g _ acc htk hn
+      exact ih g' _ r (by simpa using a) h
 
 /-- **prefix completeness**: when a program of cost `y` has been yielded, every program of the start symbol of
     strictly smaller cost all of whose sub-programs the filter accepts has been yielded -/
@@ -278,19 +325,44 @@ theorem prefix_complete (E : Env S) (hnd : RowsNodup E.G) (hst : StableAfter E) 
     (fuel k : Nat) (r : Gen S × List Prog × Bool) (h : take E fuel k (Gen.new E.G) [] = some r)
     (p q : Prog) (x y : Rat) (hp : p ∈ r.2.1) (hy : costOf E p E.G.start = some y) (hcl : clean E.filter q = true)
     (hx : costOf E q E.G.start = some x) (hlt : x < y) : q ∈ r.2.1 := by
-  have h0 : TK E (Gen.new E.G) [] := Or.inl ⟨rfl, rfl, rfl⟩
-  rcases take_k E hnd hst hprod hpos fuel k _ _ r h0 h with ⟨_, _, h3⟩ | hg
+  have h0 : TK E (Gen.new E.G) [] := Or.inl ⟨rfl, rfl, rfl, rfl⟩
+  rcases (take_k E hnd hst hprod hpos fuel k _ _ r h0 h).1 with ⟨_, _, _, h3⟩ | hg
   · rw [h3] at hp; cases hp
   · obtain ⟨c, hc1, hc2⟩ := hg.yc p hp
     rw [hy] at hc2
     have hyc : y = c.fin := Option.some.inj hc2
-    have hne : r.1.st.clOf E.G.start ≠ [] := by intro h0; rw [h0] at hc1; cases hc1
     obtain ⟨L, hlast⟩ : ∃ L, (r.1.st.clOf E.G.start).getLast? = some L := by
       cases h0 : (r.1.st.clOf E.G.start).getLast? with
-      | none => exact absurd (List.getLast?_eq_none_iff.mp h0) hne
+      | none => exact absurd (List.getLast?_eq_none_iff.mp h0) hg.ne
       | some l => exact ⟨l, rfl⟩
     have hle := le_last_of_pairwise _ (hg.w.o.mono E.G.start) L hlast c hc1
     obtain ⟨i, e, _, _, g3⟩ := hg.w.cr E.G.start q x L hcl hx hlast (by grind)
     exact hg.yb i q g3
+
+/-- **completeness at the end**: when the generator has stopped (`next` raised StopIteration), every program of the
+    start symbol all of whose sub-programs the filter accepts has been yielded -/
+theorem complete_at_stop (E : Env S) (hnd : RowsNodup E.G) (hst : StableAfter E) (hprod : Productive E) (hpos : PosW E)
+    (fuel k : Nat) (r : Gen S × List Prog × Bool) (h : take E fuel k (Gen.new E.G) [] = some r) (hfin : r.2.2 = true)
+    (q : Prog) (x : Rat) (hcl : clean E.filter q = true) (hx : costOf E q E.G.start = some x) : q ∈ r.2.1 := by
+  have h0 : TK E (Gen.new E.G) [] := Or.inl ⟨rfl, rfl, rfl, rfl⟩
+  obtain ⟨htk, hf⟩ := take_k E hnd hst hprod hpos fuel k _ _ r h0 h
+  have hfinished := hf hfin
+  rcases htk with ⟨_, h2, _, _⟩ | hg
+  · rw [h2] at hfinished; cases hfinished
+  · obtain ⟨hfr, hq⟩ := hg.fin hfinished
+    obtain ⟨f1, _, _⟩ := hg.idle hfr
+    obtain ⟨L, hlast⟩ : ∃ L, (r.1.st.clOf E.G.start).getLast? = some L := by
+      cases h0 : (r.1.st.clOf E.G.start).getLast? with
+      | none => exact absurd (List.getLast?_eq_none_iff.mp h0) hg.ne
+      | some l => exact ⟨l, rfl⟩
+    by_cases hlt : x < L.fin
+    · obtain ⟨i, e, _, _, g3⟩ := hg.w.cr E.G.start q x L hcl hx hlast hlt
+      exact hg.yb i q g3
+    · cases q with
+      | node f kids =>
+        obtain ⟨rl, hr⟩ := rule_of_cost E E.G.start f kids x hx
+        rcases f1.1 f kids x L rl hcl hx hlast (by grind) hr with ⟨_, g2⟩ | ⟨el, g1, _, _⟩
+        · exact hg.yb _ _ g2
+        · rw [hq] at g1; cases g1
 
 end PS.Beap
